@@ -12,9 +12,10 @@ CONSTANTS
   MSV = {"M4"}
   MSI = {}
   Cmts = {"c1"}
-  StartOffs = {2}
+  StartOffs = {4}
   EndOffs = {3}
   PoolIds = {"r1"}
+  Vias = {"lib"}
   Ops = {"set", "expire", "merge", "gc", "restart", "mutes", "alertgc"}
 VIEW View
 INVARIANTS IndexOK
